@@ -346,7 +346,8 @@ fn replay_main(a: &[String]) {
                     let pz_ok = !(o["poisoned"] == true) || st["pz"] == true;
                     let out_ok = o["out"] == exp_out;
                     let expected = json!({"kind": exp_out["kind"], "val": exp_out.get("val"), "lk": exp_lk, "pz": st["pz"]});
-                    let observed = json!({"kind": o["out"]["kind"], "val": o["out"].get("val"), "lk": olk, "pz": o["poisoned"]});
+                    // (the flag is judged one way only, so an acceptable flag is reported as the model's)
+                    let observed = json!({"kind": o["out"]["kind"], "val": o["out"].get("val"), "lk": olk, "pz": if pz_ok { st["pz"].clone() } else { o["poisoned"].clone() }});
                     if hi % (n / 3 + 1) == 0 && i + 1 == order.len() {
                         samples.lock().unwrap().push(json!({"op": "ProviderLock.history", "order": order, "concrete_last": c, "expected_last": expected, "observed_last": observed}));
                     }
@@ -382,5 +383,7 @@ pub fn exec_history_step(a: &Value) -> Value {
     let step = a["step"].as_u64().expect("step") as usize;
     let (_, obs) = run_history(&order[..step]);
     let o = &obs[step - 1];
-    json!({"kind": o["out"]["kind"], "val": o["out"].get("val"), "lk": lookup_class(o["evs"].as_array().unwrap()), "pz": o["poisoned"]})
+    let mpz = &order[step - 1]["pz"];
+    let pz_ok = !(o["poisoned"] == true) || *mpz == true;
+    json!({"kind": o["out"]["kind"], "val": o["out"].get("val"), "lk": lookup_class(o["evs"].as_array().unwrap()), "pz": if pz_ok { mpz.clone() } else { o["poisoned"].clone() }})
 }
